@@ -22,8 +22,23 @@
      (G3) a batch removes each HTLC at most once (`(fulfills ++ fails).Nodup`).  No violation WITHOUT (G3)
           was found by exhaustive search (1.2 M states, duplicates allowed): a duplicate removal only
           blocks the receiving peer; (G3) is a limitation of the proof, not a known necessity.
-   `Chan.evOk` states (G1)–(G3); `Chan.stepG` = `step` restricted to `evOk`; `Chan.runG` runs it.  Every
+     (G4) (update_fee, section 5c) an `update_fee` is processed only once the receiver's previous inbound fee
+          update has left AwaitingRemoteRevokeToAnnounce: `update_fee` OVERWRITES `pending_update_fee`, and
+          the real node never rests in that state unless it awaits a revoke_and_ack (`commitment_signed`
+          sets `need_commitment` and builds the next commitment at once — which promotes the update), in
+          which case FIFO delivers that revoke_and_ack before the funder's next update_fee.  Without (G4)
+          the feerates of the two views can differ (`fee_agreement_fails_lazy_commit`).
+   `Chan.evOk` states (G1)–(G4); `Chan.stepG` = `step` restricted to `evOk`; `Chan.runG` runs it.  Every
    guarded run is a run (`guarded_refines`).  Theorems that need the guards are named `…_partial`.
+
+   UPDATE_FEE is part of the model: `Ev.fee x f` (the funder `x` decides on feerate `f`; enabled as
+   `send_update_fee` is: `x` is the funder, connected, not AwaitingRemoteRevoke, nothing built and unsent,
+   no fee update of its own pending — otherwise the real node parks the update in the holding cell), the
+   `update_fee` leaves with the next batch, is retransmitted with it after a reconnection, and every
+   commitment carries the feerate that the `pending_update_fee` arm of build_commitment_transaction selects.
+   The affordability test of `can_send_update_fee` has no counterpart here (the model's balances are the
+   pre-fee `value_to_self_msat`; nothing in the model is truncated by a fee): it is Props/C01Fee.lean.
+   All theorems below quantify over runs WITH fee updates at any enabled point; `f0` is the opening feerate.
 
    Proof architecture (Proofs/Channel/*.lean): each HTLC is viewed jointly — offerer state, receiver
    state, the tokens of the two FIFO streams that concern it (in flight ++ held back ++ owed), the two
@@ -54,14 +69,14 @@ example : step (Sys.init 10 10) (.commit true [3] [] []) ≠ none := by decide
     reconnection is not a new commitment; a commitment_signed on the wire or held back has been signed and not
     yet processed, likewise a revoke_and_ack on the wire; hence the chain
     `raaRecv ≤ peer.raaSent ≤ peer.csRecv ≤ csSent` in both directions. -/
-theorem counters (va vb : Nat) (evs : List Ev) (s : Sys) (h : run (Sys.init va vb) evs = some s) :
+theorem counters (va vb f0 : Nat) (evs : List Ev) (s : Sys) (h : run (Sys.init va vb f0) evs = some s) :
     s.a.csSent = evs.countP (isCommit true) ∧ s.b.csSent = evs.countP (isCommit false) ∧
     s.b.csRecv + countCs (s.qab ++ s.pendA) ≤ s.a.csSent ∧ s.a.csRecv + countCs (s.qba ++ s.pendB) ≤ s.b.csSent ∧
     s.a.raaRecv + countRaa s.qba ≤ s.b.raaSent ∧ s.b.raaRecv + countRaa s.qab ≤ s.a.raaSent ∧
     (s.a.raaRecv ≤ s.b.raaSent ∧ s.b.raaSent ≤ s.b.csRecv ∧ s.b.csRecv ≤ s.a.csSent) ∧
     (s.b.raaRecv ≤ s.a.raaSent ∧ s.a.raaSent ≤ s.a.csRecv ∧ s.a.csRecv ≤ s.b.csSent) := by
   obtain ⟨c1, c3⟩ := run_event_counts evs _ s h
-  obtain ⟨ca, cb⟩ := Cnt.run evs _ s (Cnt.init va vb) h
+  obtain ⟨ca, cb⟩ := Cnt.run evs _ s (Cnt.init va vb f0) h
   have a1 := ca.k1; have a2 := ca.k2; have a4 := ca.k4
   have b1 : s.a.csRecv + countCs (s.qba ++ s.pendB) ≤ s.b.csSent := cb.k1
   have b2 : s.b.raaRecv + countRaa s.qab ≤ s.a.raaSent := cb.k2
@@ -78,11 +93,11 @@ example : run (Sys.init 10 10) [.commit true [3] [] [], .release true, .recv fal
 
 /-- A node never signs a new counterparty commitment while an earlier one is unrevoked — across
     disconnections too — and AwaitingRemoteRevoke is set exactly while one is outstanding. -/
-theorem at_most_one_outstanding (va vb : Nat) (evs : List Ev) (s : Sys) (h : run (Sys.init va vb) evs = some s) :
+theorem at_most_one_outstanding (va vb f0 : Nat) (evs : List Ev) (s : Sys) (h : run (Sys.init va vb f0) evs = some s) :
     s.a.csSent ≤ s.a.raaRecv + 1 ∧ s.b.csSent ≤ s.b.raaRecv + 1 ∧
     (s.a.awaitingRaa = true ↔ s.a.csSent = s.a.raaRecv + 1) ∧
     (s.b.awaitingRaa = true ↔ s.b.csSent = s.b.raaRecv + 1) := by
-  obtain ⟨ca, cb⟩ := Cnt.run evs _ s (Cnt.init va vb) h
+  obtain ⟨ca, cb⟩ := Cnt.run evs _ s (Cnt.init va vb f0) h
   have a3 := ca.k3
   have b3 : s.b.csSent = s.b.raaRecv + (if s.b.awaitingRaa then 1 else 0) := cb.k3
   refine ⟨?_, ?_, ?_, ?_⟩
@@ -99,9 +114,9 @@ example : run (Sys.init 10 10) [.commit true [3] [] [], .release true, .disconne
 /-! ### 3. a revocation is released only for a processed commitment_signed -/
 
 /-- also after a reconnection: `reest` re-owes exactly the revocations the peer has not seen -/
-theorem raa_only_after_cs (va vb : Nat) (evs : List Ev) (s : Sys) (h : run (Sys.init va vb) evs = some s) :
+theorem raa_only_after_cs (va vb f0 : Nat) (evs : List Ev) (s : Sys) (h : run (Sys.init va vb f0) evs = some s) :
     s.a.raaSent + s.a.owesRaa = s.a.csRecv ∧ s.b.raaSent + s.b.owesRaa = s.b.csRecv := by
-  obtain ⟨ca, cb⟩ := Cnt.run evs _ s (Cnt.init va vb) h
+  obtain ⟨ca, cb⟩ := Cnt.run evs _ s (Cnt.init va vb f0) h
   exact ⟨ca.k4, cb.k4⟩
 
 example : run (Sys.init 10 10) [.sendRaa true] = none := by decide
@@ -137,8 +152,8 @@ example : (runG (Sys.init 1000 1000) goodRun).isSome = true := by decide
     receiver copy gone); and each node's live outbound HTLCs (`liveSum`: all but failed removals already
     signed away) are covered by its balance — so no subtraction of the model ever truncates.
     Partial: needs the guards (G1)–(G3); without (G2) it is false (`agreement_fails_overdraw`). -/
-theorem balance_conservation_partial (va vb : Nat) (evs : List Ev) (s : Sys)
-    (h : runG (Sys.init va vb) evs = some s) :
+theorem balance_conservation_partial (va vb f0 : Nat) (evs : List Ev) (s : Sys)
+    (h : runG (Sys.init va vb f0) evs = some s) :
     s.a.valueToSelf + s.b.valueToSelf = s.total + excess s.a s.b + excess s.b s.a ∧
     liveSum s.a ≤ s.a.valueToSelf ∧ liveSum s.b ≤ s.b.valueToSelf ∧
     s.total = va + vb := by
@@ -179,6 +194,10 @@ theorem balance_conservation_partial (va vb : Nat) (evs : List Ev) (s : Sys)
             cases y
             · obtain ⟨_, _, _, e⟩ := step_reest_false h0; subst e; rfl
             · obtain ⟨_, _, _, e⟩ := step_reest_true h0; subst e; rfl
+          | fee x f =>
+            cases x
+            · obtain ⟨_, _, _, _, _, e⟩ := step_fee_false h0; subst e; rfl
+            · obtain ⟨_, _, _, _, _, e⟩ := step_fee_true h0; subst e; rfl
     exact this evs _ s h
   have e1 := EA_explicit s inv.base.ok
   have e2 : EA s.swap = excess s.b s.a := EA_explicit s.swap inv.base'.ok
@@ -190,28 +209,29 @@ example : (runG (Sys.init 1000 1000) (goodRun.take 32)).map (fun s =>
     (s.a.valueToSelf, s.b.valueToSelf, excess s.a s.b, excess s.b s.a)) = some (1000, 1300, 300, 0) := by decide
 
 /-- Quiescent form: with no HTLC pending anywhere the two balances partition the channel value. -/
-theorem balance_quiescent_partial (va vb : Nat) (evs : List Ev) (s : Sys)
-    (h : runG (Sys.init va vb) evs = some s)
+theorem balance_quiescent_partial (va vb f0 : Nat) (evs : List Ev) (s : Sys)
+    (h : runG (Sys.init va vb f0) evs = some s)
     (hq : s.a.inb = [] ∧ s.a.outb = [] ∧ s.b.inb = [] ∧ s.b.outb = []) :
     s.a.valueToSelf + s.b.valueToSelf = va + vb := by
-  obtain ⟨h1, _, _, ht⟩ := balance_conservation_partial va vb evs s h
+  obtain ⟨h1, _, _, ht⟩ := balance_conservation_partial va vb f0 evs s h
   have z1 : excess s.a s.b = 0 := by simp [excess, hq.2.1]
   have z2 : excess s.b s.a = 0 := by simp [excess, hq.2.2.2]
   omega
 
 /-! ### 5. the headline: agreement -/
 
-/-- In every guarded protocol run, every `commitment_signed` that is processed carries exactly the HTLC
-    set (ids, amounts, directions) and the balance the receiver computes for its own transaction.
+/-- In every guarded protocol run (fee updates included), every `commitment_signed` that is processed carries
+    exactly the HTLC set (ids, amounts, directions) and the balance the receiver computes for its own
+    transaction; the feerate is `fee_agreement_partial`.
     Partial: needs the guards (G1)–(G3); without (G1) or (G2) it is false (counter-examples below). -/
-theorem agreement_partial (va vb : Nat) (evs : List Ev) (s : Sys) (h : runG (Sys.init va vb) evs = some s) :
+theorem agreement_partial (va vb f0 : Nat) (evs : List Ev) (s : Sys) (h : runG (Sys.init va vb f0) evs = some s) :
     s.agreed = true :=
   (Inv.run h).agreed
 
 /-- The joint invariant behind it, for reuse: in every reachable state of the guarded protocol every HTLC
     id has one of the 106 good joint configurations (both families), every commitment_signed still
     undelivered equals its signer's current signing view, and the two copies of an HTLC carry the same amount. -/
-theorem joint_invariant_partial (va vb : Nat) (evs : List Ev) (s : Sys) (h : runG (Sys.init va vb) evs = some s) :
+theorem joint_invariant_partial (va vb f0 : Nat) (evs : List Ev) (s : Sys) (h : runG (Sys.init va vb f0) evs = some s) :
     (∀ id, good (cfgA s id) = true) ∧ (∀ id, good (cfgA s.swap id) = true) ∧
     (∀ c, Msg.cs c ∈ s.fullAB → c = s.a.buildView false true) ∧
     (∀ c, Msg.cs c ∈ s.fullBA → c = s.b.buildView false true) ∧
@@ -255,7 +275,7 @@ example : (runG (Sys.init 1000 1000) goodRun).map (fun s =>
     held back, or (while `a` is disconnected) due for retransmission; every commitment_signed `a` processed
     has been revoked towards `b` or its revoke_and_ack is in / owed to / due for retransmission in that stream.
     Symmetric for `b`.  (`counters`, unguarded, has the `≤` forms on the wire queues.) -/
-theorem stream_accounting_partial (va vb : Nat) (evs : List Ev) (s : Sys) (h : runG (Sys.init va vb) evs = some s) :
+theorem stream_accounting_partial (va vb f0 : Nat) (evs : List Ev) (s : Sys) (h : runG (Sys.init va vb f0) evs = some s) :
     s.b.csRecv + countCs s.fullAB = s.a.csSent ∧ s.b.raaRecv + countRaa s.fullAB = s.a.csRecv ∧
     s.a.csRecv + countCs s.fullBA = s.b.csSent ∧ s.a.raaRecv + countRaa s.fullBA = s.b.csRecv ∧
     countCs s.fullAB ≤ 1 ∧ countRaa s.fullAB ≤ 1 ∧ countCs s.fullBA ≤ 1 ∧ countRaa s.fullBA ≤ 1 := by
@@ -270,8 +290,8 @@ theorem stream_accounting_partial (va vb : Nat) (evs : List Ev) (s : Sys) (h : r
     the same order (`resend_order`); and `reest` itself changes neither stream.
     (The update_add / removal messages of the batch are retransmitted too and the receiver has forgotten the
     copies it had processed: that is the abstract move `mDisc`, under which the good configurations are closed.) -/
-theorem lost_messages_retransmitted_partial (va vb : Nat) (evs : List Ev) (s s' : Sys)
-    (h : runG (Sys.init va vb) evs = some s) (hd : step s .disconnect = some s') :
+theorem lost_messages_retransmitted_partial (va vb f0 : Nat) (evs : List Ev) (s s' : Sys)
+    (h : runG (Sys.init va vb f0) evs = some s) (hd : step s .disconnect = some s') :
     (∀ c, Msg.cs c ∈ s.fullAB → Msg.cs c ∈ s'.fullAB) ∧
     countCs s'.fullAB = countCs s.fullAB ∧ countRaa s'.fullAB = countRaa s.fullAB ∧
     raaFirst s'.fullAB = raaFirst s.fullAB ∧
@@ -319,6 +339,7 @@ theorem lost_messages_retransmitted_partial (va vb : Nat) (evs : List Ev) (s s' 
           | add _ _ => exact ih (by simpa [countCs, List.countP_cons] using hl)
           | fulfill _ => exact ih (by simpa [countCs, List.countP_cons] using hl)
           | fail _ => exact ih (by simpa [countCs, List.countP_cons] using hl)
+          | fee _ => exact ih (by simpa [countCs, List.countP_cons] using hl)
       rw [k _ hz, k _ (by rw [c1]; exact hz)]
     · rw [inv.base.i7 hz, inv'.base.i7 (by rw [c1]; exact hz), hbr, hn]
   · intro s'' y hr
@@ -352,6 +373,77 @@ example : (runG (Sys.init 1000 1000) discRun).map (fun s =>
 example : (runG (Sys.init 1000 1000) (discRun.take 4)).map (fun s =>
     s.b.inb.isEmpty && s.qab.isEmpty && s.a.paused && (s.fullAB.length == 2) && (countCs s.fullAB == 1)) = some true := by decide
 
+/-! ### 5c. update_fee -/
+
+/-- In every guarded protocol run — fee updates by the funder at any enabled point, any interleaving,
+    disconnections anywhere — every `commitment_signed` that is processed was built with exactly the feerate
+    the receiver computes for its own transaction (`pending_update_fee` arm of build_commitment_transaction
+    on both sides).  Partial: needs (G1)–(G4); without (G4) it is false (next theorem). -/
+theorem fee_agreement_partial (va vb f0 : Nat) (evs : List Ev) (s : Sys) (h : runG (Sys.init va vb f0) evs = some s) :
+    s.feeAgreed = true :=
+  (Inv.run h).feeAgreed
+
+/-- COUNTER-EXAMPLE without (G4): the fundee holds the first update AwaitingRemoteRevokeToAnnounce and does
+    NOT build the commitment `need_commitment` asks for; the funder's second update_fee overwrites the slot,
+    the first feerate is lost on the fundee's side: its next commitment_signed is built with the opening
+    feerate while the funder expects the first update's. -/
+def cexFeeLazyCommit : List Ev :=
+  [.fee true 1, .commit true [] [] [], .release true, .recv false, .recv false, .sendRaa false, .recv true,
+   .fee true 2, .commit true [] [] [], .release true, .recv false, .commit false [] [] [], .release false, .recv true]
+
+theorem fee_agreement_fails_lazy_commit :
+    (run (Sys.init 1000 1000) cexFeeLazyCommit).map (·.feeAgreed) = some false ∧
+    runG (Sys.init 1000 1000) cexFeeLazyCommit = none ∧ (runG (Sys.init 1000 1000) (cexFeeLazyCommit.take 10)).isSome = true := by
+  decide
+
+/-- The invariant behind it, in its quiescent form: whenever no commitment_signed of the funder is under way
+    and neither node has a fee update pending, both nodes run at the same feerate; and a fee update of the
+    funder is Outbound, one of the other node RemoteAnnounced / AwaitingRemoteRevokeToAnnounce, never the
+    other way round. -/
+theorem fee_quiescent_partial (va vb f0 : Nat) (evs : List Ev) (s : Sys) (h : runG (Sys.init va vb f0) evs = some s) :
+    (s.a.pendingFee = none → s.b.pendingFee = none → hasCs s.fullAB = false → s.a.feerate = s.b.feerate) ∧
+    (∀ f st, s.a.pendingFee = some (f, st) → st = .outbound) ∧ (∀ f st, s.b.pendingFee = some (f, st) → st ≠ .outbound) := by
+  have inv := Inv.run h
+  have hfa : s.a.isFunder = true := by
+    have : ∀ (evs : List Ev) (s s' : Sys), runG s evs = some s' → s'.a.isFunder = s.a.isFunder := by
+      intro evs
+      induction evs with
+      | nil => intro s s' h; simp only [runG] at h; injection h with h; rw [h]
+      | cons e es ih =>
+        intro s s' h
+        simp only [runG] at h
+        cases hs : stepG s e with
+        | none => simp [hs] at h
+        | some s1 => rw [hs] at h; rw [ih s1 s' h]; exact (isFunder_step (stepG_some hs).2).1
+    exact this evs _ s h
+  have hfb : s.b.isFunder = false := by
+    have := inv.fee.fd; rw [hfa] at this; cases hb : s.b.isFunder <;> simp [hb] at this ⊢
+  refine ⟨?_, wfF_of inv.base.wf hfa, wfN_of inv.base'.wf hfb⟩
+  intro h1 h2 h3
+  have hff := inv.fee.ff hfa
+  unfold FF at hff
+  have hnil : fproj s.fullAB = [] := FFv_nil_of hff (by rw [cs_mem_fproj, h3]; simp)
+  rw [hnil, h1, h2] at hff
+  exact (hff.2 (Or.inr rfl)).symm
+
+/-- Non-vacuity: the funder raises the feerate 253 → 500; the `update_fee` is processed, then a disconnection
+    loses the commitment_signed: the fundee forgets the RemoteAnnounced update, the funder retransmits
+    update_fee + commitment_signed; both commitments are renewed; the run is a guarded run, every commitment
+    agrees in HTLCs, balances and feerate, both nodes end at 500 with nothing pending. -/
+def feeRun : List Ev := [
+  .fee true 500, .commit true [] [] [], .release true, .recv false,
+  .disconnect, .reest true, .reest false, .release true,
+  .recv false, .recv false, .sendRaa false, .recv true,
+  .commit false [] [] [], .release false, .recv true, .sendRaa true, .recv false ]
+
+example : (runG (Sys.init 1000 1000 253) feeRun).map (fun s =>
+    s.agreed && s.feeAgreed && s.qab.isEmpty && s.qba.isEmpty && s.a.feerate == 500 && s.b.feerate == 500 &&
+    s.a.pendingFee.isNone && s.b.pendingFee.isNone) = some true := by decide
+
+-- after the 4th event `b` holds the update RemoteAnnounced; the disconnection drops it and the a→b stream is update_fee + commitment_signed again
+example : (runG (Sys.init 1000 1000 253) (feeRun.take 4)).map (fun s => s.b.pendingFee) = some (some (500, .remoteAnnounced)) := by decide
+example : (runG (Sys.init 1000 1000 253) (feeRun.take 5)).map (fun s => (s.b.pendingFee, fproj s.fullAB)) = some (none, [.fee 500, .cs]) := by decide
+
 /-! ### 6. send limits: the sender's statistics filter covers the peer's (C01) -/
 
 /-- `get_next_commitment_htlcs`, sender against peer, in every reachable state of the guarded protocol.
@@ -368,8 +460,8 @@ example : (runG (Sys.init 1000 1000) (discRun.take 4)).map (fun s =>
     Stated for `x = a` (first two clauses) and `x = b` (last two).  Partial: guarded runs, and the two
     in-flight restrictions.  The table facts are `good_stats_offered` / `good_stats_received` (`decide` over
     the 106 joint configurations): flipping an arm of either generated `inNextStats` breaks them. -/
-theorem next_stats_sender_covers_peer_partial (va vb : Nat) (evs : List Ev) (s : Sys)
-    (h : runG (Sys.init va vb) evs = some s) :
+theorem next_stats_sender_covers_peer_partial (va vb f0 : Nat) (evs : List Ev) (s : Sys)
+    (h : runG (Sys.init va vb f0) evs = some s) :
     (Msg.raa ∉ s.fullAB → ∀ y ∈ s.b.inb, ∀ u, y.st.inNextStats true u = true →
       ∃ x ∈ s.a.outb, x.id = y.id ∧ x.amt = y.amt ∧ x.st.inNextStats false true = true) ∧
     (∀ y ∈ s.b.outb, Msg.fulfill y.id ∉ s.fullAB → Msg.fail y.id ∉ s.fullAB → y.st.inNextStats true false = true →
